@@ -30,7 +30,9 @@ import (
 	"strings"
 )
 
-func main() { tx.Main(tx.Unit{Name: "T7", File: "GenRoutes.v", Fn: genRoutes}) }
+func main() {
+	tx.Main(tx.Unit{Name: "T7", File: "GenRoutes.v", Fn: genRoutes}, tx.Unit{Name: "T7S", File: "GenRouteSites.v", Fn: genRouteSites})
+}
 
 type router struct {
 	name    string
